@@ -31,6 +31,9 @@ def asm_jobs(seed, n, cfgs, timeout=1200):
     if platform.machine() != "x86_64" or not all(f in open("/proc/cpuinfo").read() for f in (" adx", " bmi2")): return []
     ba = build(features=("asm",), target="target-asm")
     return [(lambda c=c: trace_validate(ba, "field", "Trace_Field", c, seed + 20, n, timeout=timeout, label="B:field:%s:asm:seed%d:n%d" % (c, seed + 20, n))) for c in cfgs]
+def fullzoo_bin():
+    """most moduli of the zoo are only compiled with the fullzoo feature (compile time): the thorough tiers that walk the whole zoo use their own build"""
+    return build(features=("fullzoo",), target="target-fullzoo")
 def plan_C01(b, tier, seed):
     t = []
     if tier == "quick":
@@ -53,9 +56,10 @@ def plan_C01(b, tier, seed):
             t += [B_field_exh(b, "f%d" % p), B_field_exh(b, "f%dh" % p)]
         for p in (3, 13, 127, 251, 257, 12289):
             t += [A_field(b, "f%d" % p, "conv"), A_field(b, "f%d" % p, "conv", "f%dh" % p)]
+        bz = fullzoo_bin()
         for c in SHIPPED_PRIME + zoo_all():
             for s in (seed, seed + 1):
-                t.append(B_field(b, c, s, 12000, timeout=1800))
+                t.append(B_field(bz, c, s, 12000, timeout=1800))
         t += asm_jobs(seed, 12000, ASM_FIELDS + ["bls12_381_fq2", "bls12_381_fq12"], 2400)
     return t
 
@@ -180,7 +184,7 @@ def plan_C08(b, tier, seed):
         return [A_poly(b, "f5", "arith", 3, 4, 6), A_poly(b, "f5", "unary", 4, 4), A_poly(b, "f17", "unary", 2, 8), A_poly(b, "f13", "unary", 3, 4),
                 A_poly(b, "f7", "unary", 3, 6), A_poly(b, "f7", "arith", 2, 4, 6), A_poly(b, "f12289", "polybig", 0, 130, 8),
                 B_polybig(b, "bls12_381_fr", seed + 100, 60, 11), B_polybig(b, "bn384_fq", seed + 100, 40, 10)]
-    return [A_poly(b, "f5", "arith", 4, 4, 8), A_poly(b, "f7", "arith", 3, 4, 8), A_poly(b, "f17", "arith", 2, 4, 8), A_poly(b, "f97", "arith", 2, 4, 8),
+    return [A_poly(b, "f5", "arith", 4, 4, 8), A_poly(b, "f7", "arith", 3, 4, 8), A_poly(b, "f17", "arith", 2, 4, 8), A_poly(b, "f97", "arith", 1, 4, 8),
             A_poly(b, "f5", "unary", 5, 4), A_poly(b, "f17", "unary", 3, 16, 8), A_poly(b, "f97", "unary", 2, 12, 8), A_poly(b, "f13", "unary", 4, 4),
             A_poly(b, "f7", "unary", 4, 6), A_poly(b, "f37", "unary", 2, 12, 8), A_poly(b, "f12289", "polybig", 0, 1030, 8), A_poly(b, "f40961", "polybig", 0, 300, 8)] + \
            [B_polybig(b, c, seed + 100 + k, n, ml, timeout=3000) for (c, n, ml) in (("bls12_381_fr", 250, 13), ("bn384_fq", 200, 12), ("mnt4_753_fr", 60, 11), ("secp256k1_fr", 250, 13)) for k in range(2)]
@@ -209,8 +213,9 @@ def plan_C11(b, tier, seed):
                   "f3_2", "f7_2", "f11_2", "f19_2", "f5_2", "f13_2", "f17_2", "f7_3", "f5_4", "f13_3", "f19_3", "f13_4", "f7_6b", "f13_6b"):
             t.append(A_field(b, c, "unary", workers=6))
         t += [B_field_exh(b, "f%d%s" % (p, h)) for p in (12289, 18433, 40961) for h in ("", "h")]
+        bz = fullzoo_bin()
         for c in SHIPPED_PRIME + ["bls12_381_fq2", "mnt6_753_fq3"] + zoo_all():
-            t.append(B_field(b, c, seed + 7, 8000, 1800))
+            t.append(B_field(bz, c, seed + 7, 8000, 1800))
         t += [B_curve(b, c, seed + 7 + k, 1200, "aux", 3000) for c in BIG_CURVES for k in range(2)]
     return t
 
@@ -243,7 +248,7 @@ SER_BIG_Q = ["bls12_381_g1", "bls12_381_g2", "ed_on_bls12_381", "secp256k1", "mn
              "c_bls12_381_g1", "c_bls12_381_g2", "c_bn254_g1", "c_bn254_g2", "c_secp256r1", "c_secp384r1", "c_bls12_377_g2", "c_mnt6_298_g2", "c_bw6_761_g1", "c_ed25519", "c_curve25519",
              "c_ed_on_bls12_381_bandersnatch_te", "c_pallas", "c_mnt4_298_g2"]
 def plan_C09(b, tier, seed):
-    cs = SER_CURVES_Q if tier == "quick" else SER_CURVES_Q + ["sw19_0_8", "sw23_1_16", "sw31_1_29", "te29_1_2", "te13_2_4", "sw_f7_2_a1", "sw_f7_3_a0", "sw17_1_3"]
+    cs = SER_CURVES_Q if tier == "quick" else SER_CURVES_Q + ["sw19_0_8", "sw23_1_16", "sw31_1_29", "te29_1_2", "te13_2_4", "sw_f7_2_a1", "sw17_1_3"]
     t = []
     for c in cs:
         t += [A_ser(b, c, "field"), A_ser(b, c, "point")]
